@@ -297,6 +297,8 @@ def main(argv=None):
     tier, seed = R.tier_and_seed(argv)
     rng = random.Random(seed)
     q = tier == "quick"
+    rng2 = random.Random(seed * 7919 + 13)
+    rng3 = random.Random(seed * 104729 + 7)
     rep = R.Report(PROP, tier, seed)
     items = []
 
@@ -317,6 +319,21 @@ def main(argv=None):
             if kind == "mono":
                 it["raise"] = rng.choice(sym)
             items.append(it)
+            if kind == "mono":
+                # round 6 (seeded C09-I): every symbolic cost is raised in turn, not one drawn at random, and the fixed loss cost is not always 1 -
+                # a pruning rule that compares accumulated losses with another unit cost only bites when a loss is dear.  A separate stream keeps
+                # the inputs of the other items unchanged.
+                for tgt in sym:
+                    fl = rng2.choice([1, 2, 3])
+                    if tgt == it["raise"] and (symmode == "full" or fl == 1):
+                        continue
+                    it2 = dict(it, tseed=rng2.randrange(10 ** 9), nwit=0)
+                    it2["raise"] = tgt
+                    if symmode != "full":
+                        it2["fixed"] = dict(fixed, floss=fl)
+                    if q and sup and rng3.random() < 0.6:
+                        continue            # quick tier: the dearer paired runs of the super solvers keep 40 % of the extra items (budget)
+                    items.append(it2)
 
     n_small, n_thl, n_mid = (20, 12, 6) if q else (150, 120, 80)
     n_sim = 30 if q else 300
